@@ -255,8 +255,41 @@ def check_permutation(ctx):
                 {pf.args.vararg.arg: "perm"} if pf.args.vararg else {}, body=pf.body, mod=MON, node=pf, sig="permute")
 
 
+def check_swap_boxes(ctx):
+    """R10.4: every Swap box class of a category is the swap of monoidal.Swap on the same two types, re-typed as a box of that category"""
+    m = ctx.model
+    mswap = m.cls(MON + ".Swap")
+    n = 0
+    for k in sorted(m.subclasses(mswap, strict=True), key=lambda c: c.q):
+        if "__init__" not in k.methods:
+            continue
+        fn = k.methods["__init__"][0]
+        a = [x.arg for x in fn.args.args]
+        if len(a) != 3:
+            raise AnalysisError("%s.__init__ does not take (left, right)" % k.q)
+        N = {a[1]: "left", a[2]: "right"}
+        calls = [c for c in ast.walk(fn) if isinstance(c, ast.Call) and isinstance(c.func, ast.Attribute) and c.func.attr == "__init__"]
+        base = [c for c in calls if (m.resolve_class(k.mod, ast.unparse(c.func.value)) or k) is not k and mswap in m.mro(m.resolve_class(k.mod, ast.unparse(c.func.value)) or k)]
+        ctx.need(len(base) == 1, "%s.__init__ does not initialise exactly one Swap base" % k.q)
+        bname = ast.unparse(base[0].func.value)
+        shape.match(ctx, "R10.4", k.q + ".__init__:swap", base[0], "%s.__init__(self, left, right)" % bname, N, mod=k.mod, node=base[0], sig="swap-box-base", required="the same two types, in the same order")
+        box = [c for c in calls if c is not base[0]]
+        for c in box:
+            pos = [ast.unparse(x) for x in c.args[:4]]
+            ctx.ob("R10.4", k.q + ".__init__:box", pos == ["self", "self.name", "self.dom", "self.cod"], found=pos, required="re-typed as a box with the name, domain and codomain the swap has", mod=k.mod, node=c, sig="swap-box-type")
+        n += 1
+    ctx.need(n >= 3, "fewer than 3 Swap box classes with their own constructor (%d)" % n)
+    # dagger overrides: the swap back
+    for k in sorted(m.subclasses(mswap), key=lambda c: c.q):
+        if "dagger" in k.methods:
+            fn = k.methods["dagger"][0]
+            r = next((s.value for s in fn.body if isinstance(s, ast.Return)), None)
+            shape.match(ctx, "R10.4", k.q + ".dagger", r, ["%s(self.right, self.left)" % k.name, "type(self)(self.right, self.left)"], {}, mod=k.mod, node=fn, sig="swap-box-dagger", required="the swap of the same two types the other way round")
+
+
 def check_factories(ctx):
     m = ctx.model
+    check_swap_boxes(ctx)
     mswap = m.cls(MON + ".Swap")
     n = 0
     for k in sorted(m.subclasses(m.cls(MON + ".Diagram"), strict=True), key=lambda c: c.q):
